@@ -17,11 +17,17 @@ pub fn case(rng: &mut Rng, thorough: bool) -> String {
     let sk: Vec<usize> = if rng.chance(1, 3) { vec![0; nsk] } else { (0..nsk).map(|_| match rng.below(10) { 0 => 1, 1 => 2, _ => 0 }).collect() };
     out.push(' ');
     enc::nats(&mut out, &sk);
+    // skip_subtree before the first item: nothing has been returned yet, so nothing is skipped
+    let pre = if rng.chance(1, 6) { 1 + rng.below(2) } else { 0 };
+    write!(out, " {}", pre).unwrap();
     out.push_str(" | ");
     // generator with skips
     let r = catch_unwind(AssertUnwindSafe(|| {
         let mut rows: Vec<String> = Vec::new();
         let mut gen = t.polyhedra();
+        for _ in 0..pre {
+            gen.skip_subtree();
+        }
         let mut k = 0;
         while let Some((data, polys)) = gen.next(&t.tree) {
             let mut s = format!("{} {} {} {}", data.depth, data.index, data.n_remaining, polys.len());
